@@ -27,7 +27,7 @@ def entry_points(ci, include_private=(), exclude=()):
     return [seen[k] for k in sorted(seen)]
 
 
-def coherence(ctx, rule, ci, edges, entries=None, pseudo=None, extra=None, param_alias=None, equal_atoms=(), rel=None, type_assumptions=None, nonnull_methods=(), max_report_paths=3):
+def coherence(ctx, rule, ci, edges, entries=None, pseudo=None, extra=None, param_alias=None, equal_atoms=(), rel=None, type_assumptions=None, nonnull_methods=(), assume=None, max_report_paths=3):
     """Check every normal-exit path of every entry point against the dependency edges.
 
     param_alias: {param name: field}  a value computed from that parameter counts as computed from the field
@@ -45,7 +45,7 @@ def coherence(ctx, rule, ci, edges, entries=None, pseudo=None, extra=None, param
     found = {}
     fields_written = set()
     for qual, fn, owner in entries:
-        res = ex.explore(fn, qual)
+        res = ex.explore(fn, qual, assume=assume)
         normal = [p for p, k in res if k == "normal"]
         total_paths += len(res)
         site = "%s::%s" % (rel, qual)
